@@ -15,10 +15,24 @@ type RaceReport struct {
 	InFP bool   // at least one of the two accessing stacks has its top fp frame inside csgura/fp
 }
 
-var frameRe = regexp.MustCompile(`^\s+(/\S+\.go):(\d+)`)
+// A frame location line: absolute path, or a module-relative one when the worker was built
+// with -trimpath (tools/with_mutant.sh does): "github.com/csgura/fp@v0.0.0/lazy/lazy.go:67".
+var frameRe = regexp.MustCompile(`^\s+(\S+\.go):(\d+)`)
 
 func isFPFile(p string) bool {
 	return strings.HasPrefix(p, "/repo/") || strings.Contains(p, "github.com/csgura/fp")
+}
+
+// fpRel makes the location relative to the module root whatever the build mode was, so that
+// the violation key of a race is the same for /repo and for a -trimpath build of a copy.
+var fpModRe = regexp.MustCompile(`^.*github\.com/csgura/fp(@[^/]*)?/`)
+
+func fpRel(p string) string {
+	return fpModRe.ReplaceAllString(strings.TrimPrefix(p, "/repo/"), "")
+}
+
+func isHarnessFile(p string) bool {
+	return strings.HasPrefix(p, "/verif/") || strings.HasPrefix(p, "verif/")
 }
 
 // ParseRaceLogs reads all files dir/prefix* and splits them into reports.
@@ -59,11 +73,11 @@ func parseRaceBlock(blk string) RaceReport {
 				continue
 			}
 			if isFPFile(m[1]) {
-				loc = strings.TrimPrefix(m[1], "/repo/") + ":" + m[2]
+				loc = fpRel(m[1]) + ":" + m[2]
 				break
 			}
 			// a frame of the harness (or runtime) comes first: the access itself is not in fp
-			if strings.HasPrefix(m[1], "/verif/") {
+			if isHarnessFile(m[1]) {
 				break
 			}
 		}
